@@ -35,6 +35,9 @@ CLAIMED = {
     "C09": ("exploration",
             "Seeded schedules of 2-4 clients x 1-6 operations on a tiny shared name space of one memfs; invoke/return stamped with a global event counter; oracle = the statement's clauses: regular register per file (complete values only, no stale read after a completed overwrite), single-writer paths keep the writer's last value, final content is a written value, listings have unique names, no panic / deadlock, termination; happens-before probe on the directory index maps.",
             "Sampling. Full linearizability of the tree is deliberately not demanded (the statement does not make directory copies atomic). Races on plain fields are invisible under serialised execution."),
+    "C10": ("exploration",
+            "Seeded programs of definitions over 5 names in every registration order, dependency graphs (acyclic, cyclic, self-loops) realised by generated factories that resolve their edges by Get or by tag-driven InjectTo (required / optional), with transient failures and nil results on chosen invocations, followed by 1-20 requests (Get, InjectTo into generated structs, Keys, late definitions); a reference model of the statement predicts every outcome, every instance identity (singleton, explicit beats default) and every factory invocation count; a depth guard turns runaway recursion into a reported event.",
+            "Sampling of programs. Single task: the provider is single-threaded by contract; the fault dimension is the factory failure plan."),
     "C12": ("exploration",
             "Seeded search over schedules of 2-6 actors signalling one scope (plain, shared-context child, isolated child) with AppendError/Kill/Stop/IsDone/Err/Errors, and of child creation+close racing with the end of the parent; oracle: no panic or fatal error, every appended error retained and reported by Err/Wait/Close, done exactly once, isolation of isolated children.",
             "Sampling. Data races on plain fields (the unsynchronised read of the error slice) are outside what serialised execution can observe."),
